@@ -262,7 +262,9 @@ let spec_session cfgs chunks obs =
           let r = next () in
           let rep = Reply (n_of_int r) in
           if starts_with u "HELO " || starts_with u "EHLO " then
-            (if r = 250 then emit [Note NBoundary; Note NHelo; rep] else raise Not_simple; go rest)
+            ((if r = 250 then emit [Note NBoundary; Note NHelo; Note (NEsmtp (starts_with u "EHLO ")); rep]
+              else emit [Note NBoundary; rep]);      (* a refused greeting still drops the transaction (freedata() comes first) *)
+             go rest)
           else if starts_with u "MAIL FROM:" then begin
             (if r / 100 = 2 then
                (match o_addr false (bytes_of_str (String.sub line 10 (String.length line - 10))) with
